@@ -383,6 +383,11 @@ func (r *Run) applyContract(st *State, fr *Frame, x *ssa.Call, callee *ssa.Funct
 	for _, c := range spec.ClausesOf("set") {
 		post.assign(c.Lhs, post.eval(c.Expr))
 	}
+	for _, c := range spec.ClausesOf("postassume") {
+		// a postcondition that callers may rely on but that is NOT proved for the function itself (recorded assumption)
+		r.note("assumed (unproved) postcondition of " + cname + ": " + c.Text)
+		st.assume(post.evalBool(c.Expr))
+	}
 	for _, c := range spec.ClausesOf("ensures") {
 		func() {
 			defer func() {
